@@ -289,6 +289,15 @@ def run_(case, ctx):
                 f.write(images[i])
             names.append(path)
             amap[path] = {tuple(xy): set(cs) for xy, cs in b["targets"]}
+            if (len(images[i]) // 4 + i) % 2:
+                # chips that get the same cores share ONE set object (what
+                # dict.fromkeys(chips, cores) builds)
+                shared = {}
+                for xy, cs in list(amap[path].items()):
+                    k_ = frozenset(cs)
+                    if k_ in shared:
+                        ctx.hit("core_set_object_shared_between_chips")
+                    amap[path][xy] = shared.setdefault(k_, cs)
         snapshot = {k: {xy: set(cs) for xy, cs in v.items()}
                     for k, v in amap.items()}
         try:
